@@ -3,222 +3,333 @@ import Proofs.C07
 /-!
 # C07 — compare-and-swap is atomic on every KV backend (property theorems)
 
-All theorems quantify over **every** list of events `evs` (any number of callers, any interleaving
-of their read and apply+conditional-write steps, any caller-supplied functions, any retry budget,
-any keys, any well-formed initial store). Helper lemmas are in `Proofs/C07.lean`.
+The run-level theorems quantify over **every** list of events `evs` (any number of callers, any
+interleaving of their read and apply+conditional-write steps and of the store-level steps of the
+mirror writes, any caller-supplied functions, any retry budget, any keys, any wrapper stack) that
+satisfies `RunOK`:
+* the run starts quiescent (nobody inside a CAS call) over a well-formed primary store,
+* a memberlist primary is used with a Mergeable that honours its contract (`Lawful`: a merge that
+  reports "no change" leaves the stored value as it was — memberlist merges in place),
+* the primary store is not switched at runtime during the run (C07's quantifier has no runtime
+  switch; `primary_switch_in_flight_witness` shows what happens otherwise).
+
+Theorems about a single step (`…_step`) hold from an arbitrary state and are unfoldings of the model's
+`commit`; they are stated because the run-level theorems talk about log records and these say
+what a record is. Helper lemmas are in `Proofs/C07.lean`.
 -/
 namespace PC07
 open C07 PfC07
 
 variable {α : Type}
 
-/-- **cas_chain (consul)**: on the consul client + in-memory store, for every interleaving, the
-successful writes on a key — in commit order — form a chain: each was applied to the value left by
-the previous one (the first to the initial value) and the stored value at the end is what the last
-one left. -/
-theorem cas_chain_consul (cfg : Cfg α) (s0 : Sys α) (h0 : Quiescent s0) (_hk : s0.pri.kind = .consul)
-    (evs : List (Ev α)) (k : Key) :
-    Chain (s0.pri.val k) (successful k (run cfg s0 evs).log) ((run cfg s0 evs).pri.val k) :=
-  chain_chrono cfg s0 h0 evs k
+/-! ### the chain of successful calls -/
 
-/-- **cas_chain (etcd)**. -/
-theorem cas_chain_etcd (cfg : Cfg α) (s0 : Sys α) (h0 : Quiescent s0) (_hk : s0.pri.kind = .etcd)
-    (evs : List (Ev α)) (k : Key) :
-    Chain (s0.pri.val k) (successful k (run cfg s0 evs).log) ((run cfg s0 evs).pri.val k) :=
-  chain_chrono cfg s0 h0 evs k
+/-- **cas_chain** (consul, etcd, memberlist — one statement): for every interleaving, the successful
+writes on a key of the primary store — in commit order, as (value `f` was applied to, value left) —
+form a chain: the first was applied to the initial value, each next one to the value left by the
+previous one, and the stored value at the end is what the last one left. -/
+theorem cas_chain (cfg : Cfg α) (s0 : Sys α) (evs : List (Ev α)) (h : RunOK cfg s0 evs) (k : Key) :
+    Chain (s0.pri.val k) (successful k (run cfg s0 evs).log) (((run cfg s0 evs).stores s0.primary).val k) :=
+  chain_chrono cfg s0 evs h k
 
-/-- **no lost update** (every backend), per write: in every interleaving, each successful write was
-applied to exactly the value that was stored at the moment of the write. -/
-theorem no_lost_update (cfg : Cfg α) (s0 : Sys α) (h0 : Quiescent s0)
-    (evs : List (Ev α)) (r : Rec α) (hr : r ∈ (run cfg s0 evs).log) (hw : r.outcome = .wrote) :
-    r.inp = r.before :=
-  wrote_input_current cfg s0 h0 evs r hr hw
+/-- **cas_chain_outputs** (consul, etcd): the same chain in terms of what the functions *returned*:
+each successful call's output is the next successful call's input and the final value is the
+last output — "the final value reflects exactly the successful calls". -/
+theorem cas_chain_outputs (cfg : Cfg α) (s0 : Sys α) (evs : List (Ev α)) (h : RunOK cfg s0 evs)
+    (hk : s0.pri.kind ≠ .ml) (k : Key) :
+    Chain (s0.pri.val k) (successfulOut k (run cfg s0 evs).log) (((run cfg s0 evs).stores s0.primary).val k) := by
+  rw [successfulOut_eq cfg s0 evs h hk k]; exact chain_chrono cfg s0 evs h k
+
+/-- **ml_cas_chain_outputs** (memberlist): what a memberlist write leaves is the *merge* of `f`'s output
+into the value found, so the chain of outputs needs the guard that the recorded successful calls
+used functions that only grow the value (`merge inp out = (out, true)`); then it holds as above. -/
+theorem ml_cas_chain_outputs (cfg : Cfg α) (s0 : Sys α) (evs : List (Ev α)) (h : RunOK cfg s0 evs)
+    (hk : s0.pri.kind = .ml)
+    (hgrow : ∀ r ∈ (run cfg s0 evs).log, r.outcome = .wrote → ∀ out, r.out = some out → cfg.merge r.inp out = (out, true))
+    (k : Key) :
+    Chain (s0.pri.val k) (successfulOut k (run cfg s0 evs).log) (((run cfg s0 evs).stores s0.primary).val k) := by
+  rw [successfulOut_eq_of _ k (fun r hr hw => by
+    obtain ⟨_, out, v, ho, _, _⟩ := PfC07.ml_wrote_leaves_merge cfg s0 evs h hk r hr hw
+    rw [ho, (PfC07.ml_no_lost_update cfg s0 evs h hk r hr hw).2 out ho (hgrow r hr hw out ho)])]
+  exact chain_chrono cfg s0 evs h k
+
+/-- **no_lost_update** (every backend), per write: each successful write was applied to exactly the
+value that was stored at the moment of the write. -/
+theorem no_lost_update (cfg : Cfg α) (s0 : Sys α) (evs : List (Ev α)) (h : RunOK cfg s0 evs)
+    (r : Rec α) (hr : r ∈ (run cfg s0 evs).log) (hw : r.outcome = .wrote) : r.inp = r.before :=
+  wrote_input_current cfg s0 evs h r hr hw
 
 /-- What a successful call leaves (consul, etcd) is exactly the value its function returned, and
 the CAS call returns nil. -/
-theorem wrote_leaves_output (cfg : Cfg α) (s0 : Sys α) (h0 : Quiescent s0) (hk : s0.pri.kind ≠ .ml)
-    (evs : List (Ev α)) (r : Rec α) (hr : r ∈ (run cfg s0 evs).log) (hw : r.outcome = .wrote) :
+theorem wrote_leaves_output (cfg : Cfg α) (s0 : Sys α) (evs : List (Ev α)) (h : RunOK cfg s0 evs)
+    (hk : s0.pri.kind ≠ .ml) (r : Rec α) (hr : r ∈ (run cfg s0 evs).log) (hw : r.outcome = .wrote) :
     r.done = some true ∧ ∃ out, r.out = some out ∧ r.after = some out :=
-  PfC07.wrote_leaves_output cfg s0 h0 hk evs r hr hw
+  PfC07.wrote_leaves_output cfg s0 evs h hk r hr hw
 
-/-- The value recorded as `out` of a successful attempt is the caller's function applied to the
-value the attempt had read (`inp`): the step of a caller holding `inp` logs `f att inp`. -/
-theorem wrote_applies_f (cfg : Cfg α) (s : Sys α) (c : Nat) (cl : Call α) (cid att idx : Nat) (inp : Option α)
-    (hp : s.ph c = .holding cl cid att idx inp) :
-    ∃ r, (next cfg s (.step c)).log = r :: s.log ∧ r.inp = inp ∧ r.key = cl.key ∧
-      (r.outcome = .wrote → ∃ out retry, cl.f att inp = .write out retry ∧ r.out = some out) :=
-  PfC07.wrote_applies_f cfg s c cl cid att idx inp hp
+/-- memberlist: a successful write leaves the merge of `f`'s output into the value found … -/
+theorem ml_wrote_leaves_merge (cfg : Cfg α) (s0 : Sys α) (evs : List (Ev α)) (h : RunOK cfg s0 evs)
+    (hk : s0.pri.kind = .ml) (r : Rec α) (hr : r ∈ (run cfg s0 evs).log) (hw : r.outcome = .wrote) :
+    r.done = some true ∧ ∃ out v, r.out = some out ∧ cfg.merge r.before out = (v, true) ∧ r.after = some v :=
+  PfC07.ml_wrote_leaves_merge cfg s0 evs h hk r hr hw
 
-/-! ### failed or declined calls change nothing (all backends, memberlist included) -/
+/-- … which was the value `f` was applied to; for an only-growing function it is `f`'s output. -/
+theorem ml_no_lost_update (cfg : Cfg α) (s0 : Sys α) (evs : List (Ev α)) (h : RunOK cfg s0 evs)
+    (hk : s0.pri.kind = .ml) (r : Rec α) (hr : r ∈ (run cfg s0 evs).log) (hw : r.outcome = .wrote) :
+    r.inp = r.before ∧ ∀ out, r.out = some out → cfg.merge r.inp out = (out, true) → r.after = some out :=
+  PfC07.ml_no_lost_update cfg s0 evs h hk r hr hw
 
-/-- **failed_or_declined_noop (steps)**: the stored value of a key changes only in a step that logs a
-successful write on that key; every other step — reads, failed or declined attempts, conflicts,
-"no change" merges, mirror writes — leaves every key of the primary store as it was. -/
-theorem non_write_steps_noop (cfg : Cfg α) (s : Sys α) (ev : Ev α) (k : Key)
-    (h : (next cfg s ev).pri.val k ≠ s.pri.val k) :
-    ∃ r, (next cfg s ev).log = r :: s.log ∧ r.outcome = .wrote ∧ r.key = k :=
-  PfC07.non_write_steps_noop cfg s ev k h
+/-! ### what the result of a call means -/
 
-/-- **failed_or_declined_noop (calls)**: in every run, if a CAS call reported failure (its loop ended
-with an error) or its function declined to write, then *no* attempt of that call wrote, and every
-attempt of that call left the stored value exactly as it found it. -/
-theorem failed_or_declined_noop (cfg : Cfg α) (s0 : Sys α) (h0 : Quiescent s0) (evs : List (Ev α))
+/-- **no phantom success**: an attempt after which the CAS loop returns nil either wrote or its
+function declined; an attempt after which it returns an error did not write. -/
+theorem success_means_wrote_or_declined (cfg : Cfg α) (s0 : Sys α) (evs : List (Ev α)) (h : RunOK cfg s0 evs)
+    (r : Rec α) (hr : r ∈ (run cfg s0 evs).log) :
+    (r.done = some true ↔ (r.outcome = .wrote ∨ r.outcome = .declined)) ∧
+    (r.done = some false → r.outcome ≠ .wrote) := by
+  have hf := (run_facts cfg s0 evs h r hr).1
+  refine ⟨⟨hf.success, fun ho => ?_⟩, fun hd hw => ?_⟩
+  · rcases ho with hw | hdcl
+    · exact (hf.wrote hw).1
+    · exact hf.declined hdcl
+  · have := (hf.wrote hw).1; rw [hd] at this; cases this
+
+/-- **failed_or_declined_noop**: if a CAS call reported failure (its loop ended with an error) or its
+function declined to write, then *no* attempt of that call wrote, and every attempt of that call
+left the stored value exactly as it found it. -/
+theorem failed_or_declined_noop (cfg : Cfg α) (s0 : Sys α) (evs : List (Ev α)) (h : RunOK cfg s0 evs)
     (r : Rec α) (hr : r ∈ (run cfg s0 evs).log) (hfail : r.done = some false ∨ r.outcome = .declined)
     (r' : Rec α) (hr' : r' ∈ (run cfg s0 evs).log) (hsame : r'.cid = r.cid) :
     r'.outcome ≠ .wrote ∧ r'.after = r'.before :=
-  PfC07.failed_or_declined_noop cfg s0 h0 evs r hr hfail r' hr' hsame
+  PfC07.failed_or_declined_noop cfg s0 evs h r hr hfail r' hr' hsame
 
-/-- a call that wrote returns nil, and it is the last attempt of its call: the caller leaves the
-primary loop (idle, or mirroring). A call therefore writes at most once. -/
-theorem wrote_ends_call (cfg : Cfg α) (s : Sys α) (c : Nat) (cl : Call α) (cid att idx : Nat) (inp : Option α)
-    (hp : s.ph c = .holding cl cid att idx inp) (r : Rec α)
+/-- **non_write_steps_noop (single step)**: from any state in which no mirror loop is aimed at store `p`,
+the value of a key in `p` changes only in a step that logs a successful write on that key by a
+call whose primary is `p`; reads, failed or declined attempts, conflicts, "no change" merges,
+mirror writes and runtime switches leave every key of `p` as it was. -/
+theorem non_write_steps_noop_step (cfg : Cfg α) (s : Sys α) (p : Nat)
+    (hl : (s.stores p).kind = .ml → Lawful cfg.merge) (hP : ∀ c, PhaseP p (s.ph c)) (ev : Ev α) (k : Key)
+    (h : ((next cfg s ev).stores p).val k ≠ (s.stores p).val k) :
+    ∃ r, (next cfg s ev).log = r :: s.log ∧ r.outcome = .wrote ∧ r.key = k ∧ r.store = p :=
+  PfC07.non_write_steps_noop cfg s p hl hP ev k h
+
+/-- (single step) the record of an attempt carries the value read as `inp`, and for a successful
+attempt `out` is the caller's function applied to it. -/
+theorem wrote_applies_f_step (cfg : Cfg α) (s : Sys α) (c p : Nat) (cl : Call α) (cid att idx : Nat) (inp : Option α)
+    (hp : s.ph c = .holding p cl cid att idx inp) :
+    ∃ r, (next cfg s (.step c)).log = r :: s.log ∧ r.inp = inp ∧ r.key = cl.key ∧ r.store = p ∧
+      (r.outcome = .wrote → ∃ out retry, cl.f att inp = .write out retry ∧ r.out = some out) :=
+  PfC07.wrote_applies_f cfg s c p cl cid att idx inp hp
+
+/-- (single step) a successful write is the last attempt of its call: the CAS loop returns nil and
+the caller leaves the primary loop (idle, or mirroring). A call therefore writes at most once. -/
+theorem wrote_ends_call_step (cfg : Cfg α) (s : Sys α) (c p : Nat) (cl : Call α) (cid att idx : Nat) (inp : Option α)
+    (hp : s.ph c = .holding p cl cid att idx inp) (r : Rec α)
     (hl : (next cfg s (.step c)).log = r :: s.log) (hw : r.outcome = .wrote) :
     r.done = some true ∧ inflight ((next cfg s (.step c)).ph c) = none :=
-  PfC07.wrote_ends_call cfg s c cl cid att idx inp hp r hl hw
+  PfC07.wrote_ends_call cfg s c p cl cid att idx inp hp r hl hw
 
-/-! ### wrappers -/
+/-- The kept token variable and consul's "an absent key accepts any index" are dead in every run:
+a caller that holds a value while its key is absent read it as absent, with token 0. -/
+theorem absent_read_holds_zero_token (cfg : Cfg α) (s0 : Sys α) (evs : List (Ev α)) (h : RunOK cfg s0 evs)
+    (c q : Nat) (cl : Call α) (cid att idx : Nat) (inp : Option α)
+    (hp : (run cfg s0 evs).ph c = .holding q cl cid att idx inp)
+    (habs : ((run cfg s0 evs).stores s0.primary).ent cl.key = none) : q = s0.primary ∧ inp = none ∧ idx = 0 :=
+  PfC07.absent_read_holds_zero_token cfg s0 evs h c q cl cid att idx inp hp habs
 
-/-- **wrappers_refine (prefix)**: `prefixedKVClient.CAS(key, f) = client.CAS(prefix ++ key, f)`, and the
-key mapping is injective, so distinct user keys never alias in the backend. -/
-theorem wrappers_refine_prefix (p k1 k2 : Key) (h : prefixKey p k1 = prefixKey p k2) : k1 = k2 :=
-  prefixKey_inj p k1 k2 h
+/-! ### wrappers: prefix, metrics, multi -/
 
-/-- hence the chain property holds for every *user* key of a prefixed client (any backend), counting
-exactly the successful writes of calls made on that user key. -/
-theorem wrappers_refine_prefix_chain (cfg : Cfg α) (s0 : Sys α) (h0 : Quiescent s0)
-    (evs : List (Ev α)) (p uk : Key) :
-    Chain (s0.pri.val (prefixKey p uk)) (successful (prefixKey p uk) (run cfg s0 evs).log)
-      ((run cfg s0 evs).pri.val (prefixKey p uk)) :=
-  chain_chrono cfg s0 h0 evs _
+/-- **wrappers_refine (keys)**: through any stack of wrappers the key mapping (`prefix ++ key` for each
+prefix wrapper, identity for metrics and multi) is injective: distinct user keys never alias. -/
+theorem wrappers_refine_keys_injective (ws : List Wrap) (k1 k2 : Key) (h : wrapKey ws k1 = wrapKey ws k2) : k1 = k2 :=
+  wrapKey_inj ws k1 k2 h
 
-/-- **wrappers_refine (multi, mirroring)**: the steps of the mirror write touch neither the primary
-store, nor the log of primary attempts, nor any other caller … -/
-theorem wrappers_refine_mirror_frame (cfg : Cfg α) (s : Sys α) (c : Nat) (h : inMirror (s.ph c)) :
-    (next cfg s (.step c)).pri = s.pri ∧ (next cfg s (.step c)).log = s.log ∧
-    ∀ c', c' ≠ c → (next cfg s (.step c)).ph c' = s.ph c' :=
+/-- **wrappers_refine (metrics)**: the metrics wrapper is a pass-through — a run of user calls through a
+stack that contains it is, state for state (stores, phases, log), the run through the stack
+without it. -/
+theorem wrappers_refine_metrics (cfg : Cfg α) (s : Sys α) (ws1 ws2 : List Wrap) (uevs : List (UEv α)) :
+    run cfg s (uevs.map (wrapEv (ws1 ++ .metrics :: ws2))) = run cfg s (uevs.map (wrapEv (ws1 ++ ws2))) :=
+  metrics_refines cfg s ws1 ws2 uevs
+
+/-- **wrappers_refine (chain)**: user calls made through any wrapper stack (prefixes, metrics, multi with
+or without mirroring) satisfy the chain property on every *user* key: the successful writes of
+the calls made on that user key form a chain on the mapped key of the primary store. -/
+theorem wrappers_refine_chain (cfg : Cfg α) (s0 : Sys α) (ws : List Wrap) (uevs : List (UEv α))
+    (hq : Quiescent s0) (hl : s0.pri.kind = .ml → Lawful cfg.merge) (hns : ∀ e ∈ uevs, UNoSwitch e) (uk : Key) :
+    Chain (s0.pri.val (wrapKey ws uk)) (successful (wrapKey ws uk) (run cfg s0 (uevs.map (wrapEv ws))).log)
+      (((run cfg s0 (uevs.map (wrapEv ws))).stores s0.primary).val (wrapKey ws uk)) :=
+  chain_chrono cfg s0 _ ⟨hq, hl, wrap_noSwitches ws uevs hns⟩ _
+
+/-- **mirror targets** (`writeToSecondary`): the model's `MultiClient` starts, after a successful write
+of a mirrored call whose primary is `p`, the loop over `mirrorTargets s.clients p` … -/
+theorem mirror_loop_targets_step (cfg : Cfg α) (s : Sys α) (c p : Nat) (cl : Call α) (cid att idx : Nat) (inp : Option α)
+    (hp : s.ph c = .holding p cl cid att idx inp) (hm : cl.mirror = true) (hb : 0 < cfg.sbudget) (r : Rec α)
+    (hl : (next cfg s (.step c)).log = r :: s.log) (hw : r.outcome = .wrote) :
+    ∃ out, r.out = some out ∧
+      (next cfg s (.step c)).ph c =
+        (match mirrorTargets s.clients p with
+         | [] => .idle
+         | t :: rest => .mreading t rest cl.key out 0 0) :=
+  mirror_loop_targets cfg s c p cl cid att idx inp hp hm hb r hl hw
+
+/-- … and those targets are exactly the clients other than `p`, wherever `p` sits in the list. -/
+theorem mirror_targets_exactly_others (clients : List Nat) (p c : Nat) :
+    c ∈ mirrorTargets clients p ↔ (c ∈ clients ∧ c ≠ p) :=
+  mirrorTargets_mem clients p c
+
+/-- Hence, in every run, no mirror loop is ever aimed at the primary store (callers in a primary
+loop work on the primary, callers in a mirror loop on other stores only). -/
+theorem mirror_never_targets_primary (cfg : Cfg α) (s0 : Sys α) (evs : List (Ev α)) (h : RunOK cfg s0 evs) (c : Nat) :
+    PhaseP s0.primary ((run cfg s0 evs).ph c) :=
+  PfC07.mirror_never_targets_primary cfg s0 evs h c
+
+/-- (single step) a step of a mirror loop changes at most the store it is aimed at; the log of primary
+attempts and the other callers are untouched. -/
+theorem mirror_frame_step (cfg : Cfg α) (s : Sys α) (c : Nat) (h : inMirror (s.ph c)) :
+    (next cfg s (.step c)).log = s.log ∧ (∀ c', c' ≠ c → (next cfg s (.step c)).ph c' = s.ph c') ∧
+    ∀ i, (∀ t rest k v att idx, s.ph c ≠ .mreading t rest k v att idx) →
+      (∀ rest k v att idx inp, s.ph c ≠ .mholding i rest k v att idx inp) →
+      (next cfg s (.step c)).stores i = s.stores i :=
   mirror_step_frame cfg s c h
 
-/-- … and conversely the primary loop never touches the secondary store. (`cas_chain_*` above already
-quantify over runs that contain mirrored calls and mirror steps.) -/
-theorem wrappers_refine_primary_frame (cfg : Cfg α) (s : Sys α) (ev : Ev α)
-    (h : ∀ c, ev = .step c → ¬ inMirror (s.ph c)) : (next cfg s ev).sec = s.sec :=
-  primary_step_sec cfg s ev h
+/-- (single step) `begin`, `switch` and the steps of a primary loop on another store leave store `i` alone. -/
+theorem primary_frame_step (cfg : Cfg α) (s : Sys α) (ev : Ev α)
+    (h : ∀ c, ev = .step c → ¬ inMirror (s.ph c)) (i : Nat)
+    (hi : ∀ c q cl cid att idx inp, ev = .step c → s.ph c = .holding q cl cid att idx inp → q ≠ i) :
+    (next cfg s ev).stores i = s.stores i :=
+  primary_step_frame cfg s ev h i hi
 
-/-- an undisturbed mirror write on a consul/etcd secondary stores the value the primary CAS wrote. -/
-theorem wrappers_refine_mirror_copies (cfg : Cfg α) (s : Sys α) (c : Nat) (k : Key) (v : α)
-    (hp : s.ph c = .mreading k v 0 0) (hk : s.sec.kind ≠ .ml) :
-    (next cfg (next cfg s (.step c)) (.step c)).sec.val k = some v :=
-  mirror_copies_value cfg s c k v hp hk
+/-- An **undisturbed** mirror write (its Get and its conditional write with nothing in between) on a
+consul or etcd store leaves the value the primary CAS wrote. Under interleaving this is not so:
+see `mirror_interleaved_witness`. -/
+theorem mirror_copies_undisturbed (cfg : Cfg α) (s : Sys α) (c t : Nat) (rest : List Nat) (k : Key) (v : α)
+    (hp : s.ph c = .mreading t rest k v 0 0) (hk : (s.stores t).kind ≠ .ml) :
+    ((next cfg (next cfg s (.step c)) (.step c)).stores t).val k = some v :=
+  PfC07.mirror_copies_undisturbed cfg s c t rest k v hp hk
 
-/-- **mirror targets** (`writeToSecondary`): whatever the client list and wherever the primary sits in it
-— in particular after `setNewPrimaryClient` moved it away from position 0 at runtime — the mirror
-write is never sent to the store the call used as primary … -/
-theorem mirror_targets_exclude_primary (clients : List Nat) (primary : Nat) :
-    primary ∉ mirrorTargets clients primary := by
-  simp [mirrorTargets]
-
-/-- … it is sent to every other client, and to nothing else. -/
-theorem mirror_targets_exactly_others (clients : List Nat) (primary c : Nat) :
-    c ∈ mirrorTargets clients primary ↔ (c ∈ clients ∧ c ≠ primary) := by
-  simp [mirrorTargets]
-
-/-- two clients, primary switched to the second one: the mirror goes to the first (old) store only;
-"all clients but the first" would be the primary itself. -/
-example : mirrorTargets [0, 1] 1 = [0] ∧ mirrorTargets [0, 1] 0 = [1] ∧ ([0, 1] : List Nat).tail = [1] := by decide
-
-/-! ### memberlist
-
-Since dskit commit "fix: memberlist KV CAS on a missing key is not atomic" `mergeValueForKey` tests
-`cas && curr.Version != casVersion`, so the first write of a key is conditional like every other
-write and the chain property holds without any guard. -/
-
-/-- **ml_cas_chain**: on the memberlist store, for every interleaving (first write of a key included),
-the successful writes on a key form a chain from the initial to the final value. -/
-theorem ml_cas_chain (cfg : Cfg α) (s0 : Sys α) (h0 : Quiescent s0) (_hk : s0.pri.kind = .ml)
-    (evs : List (Ev α)) (k : Key) :
-    Chain (s0.pri.val k) (successful k (run cfg s0 evs).log) ((run cfg s0 evs).pri.val k) :=
-  chain_chrono cfg s0 h0 evs k
-
-/-- what a successful memberlist write leaves is the merge of `f`'s output into the value found. -/
-theorem ml_wrote_leaves_merge (cfg : Cfg α) (s0 : Sys α) (h0 : Quiescent s0) (hk : s0.pri.kind = .ml)
-    (evs : List (Ev α)) (r : Rec α) (hr : r ∈ (run cfg s0 evs).log) (hw : r.outcome = .wrote) :
-    r.done = some true ∧ ∃ out, r.out = some out ∧ r.after = cfg.merge r.before out ∧ r.after ≠ none :=
-  PfC07.ml_wrote_leaves_merge cfg s0 h0 hk evs r hr hw
-
-/-- **ml_no_lost_update**: every successful memberlist write was applied to the value stored at that
-moment, and for a function that only grows the value (`merge v (f v) = f v`) it leaves `f`'s output. -/
-theorem ml_no_lost_update (cfg : Cfg α) (s0 : Sys α) (h0 : Quiescent s0) (hk : s0.pri.kind = .ml)
-    (evs : List (Ev α)) (r : Rec α) (hr : r ∈ (run cfg s0 evs).log) (hw : r.outcome = .wrote) :
-    r.inp = r.before ∧ ∀ out, r.out = some out → cfg.merge r.inp out = some out → r.after = some out :=
-  PfC07.ml_no_lost_update cfg s0 h0 hk evs r hr hw
-
-/-! #### history: before the repair the first write was not atomic (finding D4)
-
-`condWriteMlOld` is the rule `casVersion > 0 && curr.Version != casVersion` the code had before the
-repair. It is NOT part of the model of the current code; the witness below only records why the rule
-was changed: two callers that both read the absent key (version 0, input `none`) both succeed, and
-the second write lands on the value the first one left — which the current rule rejects. -/
+/-! ### concrete data: witnesses and non-vacuity -/
 
 def kx : Key := [107]
-def oldAfterFirst : Store Val := (condWriteMlOld Val.merge (Store.empty .ml) kx 0 (Val.app 100 none)).1
-
-theorem ml_first_write_not_atomic_history :
-    (condWriteMlOld Val.merge (Store.empty .ml) kx 0 (Val.app 100 none)).2 = .wrote ∧
-    oldAfterFirst.val kx = some ⟨0, [100]⟩ ∧
-    (condWriteMlOld Val.merge oldAfterFirst kx 0 (Val.app 200 none)).2 = .wrote ∧
-    (condWriteMlOld Val.merge oldAfterFirst kx 0 (Val.app 200 none)).1.val kx = some ⟨0, [100, 200]⟩ ∧
-    (condWrite Val.merge oldAfterFirst kx 0 (Val.app 200 none)).2 = .conflict := by
-  decide
-
-/-! #### the same race under the current rule -/
-
-def callApp (id : Nat) : Call Val := ⟨kx, fun _ inp => .write (Val.app id inp) true, false⟩
-def mlCfg : Cfg Val := { budget := 10, sbudget := 10, merge := Val.merge }
-def mlEmpty : Sys Val := Sys.init (Store.empty .ml) (Store.empty .consul)
-/-- both callers read the absent key, then both try to write; caller 1 re-reads and writes again. -/
-def mlRace : List (Ev Val) :=
-  [.begin 0 (callApp 100), .step 0, .begin 1 (callApp 200), .step 1, .step 0, .step 1, .step 1, .step 1]
-
-/-- the second caller conflicts, re-reads and writes on top of the first caller's value. -/
-example : (run mlCfg mlEmpty mlRace).log.map (fun r => (r.caller, r.inp, r.outcome, r.after)) =
-    [(1, some ⟨0, [100]⟩, .wrote, some ⟨0, [100, 200]⟩), (1, none, .conflict, some ⟨0, [100]⟩),
-     (0, none, .wrote, some ⟨0, [100]⟩)] := by decide
-example : Quiescent mlEmpty := quiescent_init _ _ (wf_empty _)
-
-/-! ### non-vacuity: concrete runs that meet the hypotheses and exercise conflicts -/
-
+def cfgT : Cfg Val := { budget := 10, sbudget := 10, merge := Val.merge }              -- harness merge (counts touches)
+def cfgL : Cfg Val := { budget := 10, sbudget := 10, merge := Val.mergeWith false }    -- lawful merge
 def callInc (k : Key) (mirror : Bool) : Call Val := ⟨k, fun _ inp => .write (Val.inc inp) true, mirror⟩
-def sys (b : Backend) : Sys Val := Sys.init (Store.empty b) (Store.empty .etcd)
-/-- both callers read the absent key; caller 0 writes; caller 1 conflicts, re-reads and writes. -/
+def callApp (id : Nat) (mirror : Bool) : Call Val := ⟨kx, fun _ inp => .write (Val.app id inp) true, mirror⟩
+/-- a mirroring MultiClient over a store of kind `b` (position 0, primary) and an etcd store (position 1). -/
+def sys (b : Backend) : Sys Val := Sys.init2 (Store.empty b) (Store.empty .etcd) true
+/-- both callers read the absent key; caller 0 writes; caller 1 conflicts, re-reads and writes; then
+caller 0's mirror write (Get + conditional write on store 1). -/
 def race : List (Ev Val) :=
   [.begin 0 (callInc kx true), .step 0, .begin 1 (callInc kx false), .step 1, .step 0, .step 1, .step 1, .step 1,
    .step 0, .step 0]
 
-example : Quiescent (sys .consul) := quiescent_init _ _ (wf_empty _)
-example : (run mlCfg (sys .consul) race).log.map (fun r => (r.caller, r.inp, r.outcome, r.after)) =
-    [(1, some ⟨1, []⟩, .wrote, some ⟨2, []⟩), (1, none, .conflict, some ⟨1, []⟩), (0, none, .wrote, some ⟨1, []⟩)] := by
+/-- `RunOK` is met by these runs, memberlist included. -/
+example (b : Backend) : RunOK cfgL (sys b) race :=
+  ⟨quiescent_init2 _ _ _ (wf_empty _), fun _ => lawful_mergeWith_false, by unfold NoSwitches; decide⟩
+
+example : (run cfgL (sys .consul) race).log.map (fun r => (r.caller, r.inp, r.outcome, r.after)) =
+    [(1, some ⟨1, [], 0⟩, .wrote, some ⟨2, [], 0⟩), (1, none, .conflict, some ⟨1, [], 0⟩),
+     (0, none, .wrote, some ⟨1, [], 0⟩)] := by decide
+example : (run cfgL (sys .ml) race).log.map (fun r => (r.caller, r.inp, r.outcome, r.after)) =
+    [(1, some ⟨1, [], 0⟩, .wrote, some ⟨2, [], 0⟩), (1, none, .conflict, some ⟨1, [], 0⟩),
+     (0, none, .wrote, some ⟨1, [], 0⟩)] := by decide
+example : successfulOut kx (run cfgL (sys .etcd) race).log =
+    [(none, some ⟨1, [], 0⟩), (some ⟨1, [], 0⟩, some ⟨2, [], 0⟩)] := by decide
+/-- the mirrored value reached store 1. -/
+example : ((run cfgL (sys .consul) race).stores 1).val kx = some ⟨1, [], 0⟩ := by decide
+
+/-- a wrapper stack as `kv.createClient` builds it: metrics(prefix(multi(backend))). -/
+example : (wrapCall [.metrics, .pfx [112, 47], .multi true] (⟨kx, fun _ inp => .write (Val.inc inp) true⟩ : UCall Val)).key = [112, 47, 107] ∧
+    (wrapCall [.metrics, .pfx [112, 47], .multi true] (⟨kx, fun _ inp => .write (Val.inc inp) true⟩ : UCall Val)).mirror = true := by
   decide
-example : (run mlCfg (sys .etcd) race).log.map (fun r => (r.caller, r.inp, r.outcome, r.after)) =
-    [(1, some ⟨1, []⟩, .wrote, some ⟨2, []⟩), (1, none, .conflict, some ⟨1, []⟩), (0, none, .wrote, some ⟨1, []⟩)] := by
-  decide
-example : successful kx (run mlCfg (sys .consul) race).log = [(none, some ⟨1, []⟩), (some ⟨1, []⟩, some ⟨2, []⟩)] := by
-  decide
-/-- the mirrored value reached the secondary. -/
-example : (run mlCfg (sys .consul) race).sec.val kx = some ⟨1, []⟩ := by decide
-/-- memberlist with the key already present: a conflict, a re-read and a write on top. -/
-def mlPresent : Sys Val := Sys.init ((Store.empty .ml).set kx ⟨⟨0, [1]⟩, 1⟩) (Store.empty .consul)
-example : (run mlCfg mlPresent race).log.map (fun r => (r.caller, r.idx, r.outcome, r.after)) =
-    [(1, 2, .wrote, some ⟨2, [1]⟩), (1, 1, .conflict, some ⟨1, [1]⟩), (0, 1, .wrote, some ⟨1, [1]⟩)] := by
-  decide
-/-- the harness functions only grow the value, e.g. -/
-example : Val.merge (some ⟨2, [1, 5]⟩) (Val.inc (some ⟨2, [1, 5]⟩)) = some (Val.inc (some ⟨2, [1, 5]⟩)) ∧
-    Val.merge (some ⟨2, [1, 5]⟩) (Val.app 3 (some ⟨2, [1, 5]⟩)) = some (Val.app 3 (some ⟨2, [1, 5]⟩)) ∧
-    Val.merge none (Val.app 3 none) = some (Val.app 3 none) := by decide
-/-- a failed and a declined call. -/
+/-- the guard of `ml_cas_chain_outputs` is met by the harness functions, e.g. -/
+example : Val.mergeWith false (some ⟨2, [1, 5], 0⟩) (Val.inc (some ⟨2, [1, 5], 0⟩)) = (Val.inc (some ⟨2, [1, 5], 0⟩), true) ∧
+    Val.mergeWith false (some ⟨2, [1, 5], 0⟩) (Val.app 3 (some ⟨2, [1, 5], 0⟩)) = (Val.app 3 (some ⟨2, [1, 5], 0⟩), true) ∧
+    Val.mergeWith false none (Val.app 3 none) = (Val.app 3 none, true) := by decide
+
+/-- a call that fails because its retries are exhausted by *conflicts* (budget 1, two racers):
+`failed_or_declined_noop` applies to caller 1's call. -/
+example : (run { cfgL with budget := 1 } (sys .etcd)
+      [.begin 0 (callInc kx false), .step 0, .begin 1 (callInc kx false), .step 1, .step 0, .step 1]).log.map
+      (fun r => (r.caller, r.outcome, r.done, r.after)) =
+    [(1, .conflict, some false, some ⟨1, [], 0⟩), (0, .wrote, some true, some ⟨1, [], 0⟩)] := by decide
+
+/-- a function that fails with retry until the budget is gone, and a declining one. -/
 def callFail : Call Val := ⟨kx, fun _ _ => .fail true, false⟩
 def callDecl : Call Val := ⟨kx, fun _ _ => .decline, false⟩
-example : (run { budget := 2, sbudget := 10, merge := Val.merge } (sys .etcd) [.begin 0 callFail, .step 0, .step 0, .step 0, .step 0,
+example : (run { cfgL with budget := 2 } (sys .etcd) [.begin 0 callFail, .step 0, .step 0, .step 0, .step 0,
       .begin 1 callDecl, .step 1, .step 1]).log.map (fun r => (r.cid, r.outcome, r.done)) =
     [(1, .declined, some true), (0, .failed, some false), (0, .failed, none)] := by decide
+
+/-- **mirror_interleaved_witness**: mirror writes are not ordered like the primary writes. Caller 0 writes 1,
+caller 1 writes 2 on the primary; caller 1's mirror write lands first, caller 0's second: the
+secondary ends with the older value 1 while the primary holds 2. -/
+theorem mirror_interleaved_witness :
+    let s := run cfgL (sys .consul)
+      [.begin 0 (callInc kx true), .step 0, .step 0, .begin 1 (callInc kx true), .step 1, .step 1,
+       .step 1, .step 1, .step 0, .step 0]
+    (s.stores 0).val kx = some ⟨2, [], 0⟩ ∧ (s.stores 1).val kx = some ⟨1, [], 0⟩ := by
+  decide
+
+/-- **ml_lawful_needed_witness**: the Mergeable contract is necessary for "a failed call leaves the stored
+value unchanged" on memberlist. With the harness merge (which counts in place the merges that
+report no change) a call whose function returns its input, and which therefore fails with "no
+change detected", leaves a different stored object. -/
+theorem ml_lawful_needed_witness :
+    let s0 : Sys Val := Sys.init2 ((Store.empty .ml).set kx ⟨⟨3, [1], 0⟩, 1⟩) (Store.empty .consul) false
+    let same : Call Val := ⟨kx, fun _ inp => .write (inp.getD Val.empty) false, false⟩
+    (run cfgT s0 [.begin 0 same, .step 0, .step 0]).log.map (fun r => (r.outcome, r.done, r.before, r.after)) =
+      [(.nochange, some false, some ⟨3, [1], 0⟩, some ⟨3, [1], 1⟩)] ∧
+    ¬ Lawful Val.merge := by
+  refine ⟨by decide, fun h => ?_⟩
+  have := h ⟨0, [], 0⟩ ⟨0, [], 0⟩ ⟨0, [], 1⟩ (by decide)
+  exact absurd this (by decide)
+
+/-! #### history: before the repair the first write on memberlist was not atomic (finding D4)
+
+`condWriteMlOld` is the rule `casVersion > 0 && curr.Version != casVersion` the code had before the
+repair. It is NOT part of the model of the current code; the witness records why the rule was
+changed: two callers that both read the absent key (version 0, input `none`) both succeed, and the
+second write lands on the value the first one left — which the current rule rejects. -/
+
+def oldAfterFirst : Store Val := (condWriteMlOld Val.merge (Store.empty .ml) kx 0 (Val.app 100 none)).1
+
+theorem ml_first_write_not_atomic_history :
+    (condWriteMlOld Val.merge (Store.empty .ml) kx 0 (Val.app 100 none)).2 = .wrote ∧
+    oldAfterFirst.val kx = some ⟨0, [100], 0⟩ ∧
+    (condWriteMlOld Val.merge oldAfterFirst kx 0 (Val.app 200 none)).2 = .wrote ∧
+    (condWriteMlOld Val.merge oldAfterFirst kx 0 (Val.app 200 none)).1.val kx = some ⟨0, [100, 200], 0⟩ ∧
+    (condWrite Val.merge oldAfterFirst kx 0 (Val.app 200 none)).2 = .conflict := by
+  decide
+
+/-- the same race under the current rule: the second caller conflicts, re-reads and writes on top. -/
+example : (run cfgT (Sys.init2 (Store.empty .ml) (Store.empty .consul) false)
+      [.begin 0 (callApp 100 false), .step 0, .begin 1 (callApp 200 false), .step 1, .step 0, .step 1, .step 1,
+       .step 1]).log.map (fun r => (r.caller, r.inp, r.outcome, r.after)) =
+    [(1, some ⟨0, [100], 0⟩, .wrote, some ⟨0, [100, 200], 0⟩), (1, none, .conflict, some ⟨0, [100], 0⟩),
+     (0, none, .wrote, some ⟨0, [100], 0⟩)] := by decide
+
+/-! #### observation (outside C07's quantifier): switching the primary while a mirrored call is in flight
+
+`MultiClient.CAS` captures the primary when the call starts and `writeToSecondary` writes blindly to
+every *other* client. If the primary is switched (runtime configuration) between a call's primary
+CAS and its mirror write, that blind write goes to the NEW primary and overwrites what later calls
+wrote there. This is the behaviour of the unpatched code (reproduced on the real code, see the
+report); it needs a runtime switch, which C07 does not quantify over, so no theorem above and no
+judge rule concerns it. -/
+
+/-- **primary_switch_in_flight_witness**: caller 0 (mirrored, primary = store 0) appends 100 on store 0;
+the primary is switched to store 1; caller 1 (primary = store 1) appends 200 on store 1 and
+returns nil; caller 0's mirror write then replaces store 1's value by `{100}`: caller 1's
+successful update is gone from the store that is now the primary. -/
+def switchRun : Sys Val :=
+  run cfgL (Sys.init2 (Store.empty .consul) (Store.empty .consul) true)
+    [.begin 0 (callApp 100 true), .step 0, .step 0, .switch 1,
+     .begin 1 (callApp 200 true), .step 1, .step 1, .step 0, .step 0]
+
+theorem primary_switch_in_flight_witness :
+    switchRun.primary = 1 ∧
+    switchRun.log.map (fun r => (r.caller, r.store, r.outcome, r.done, r.after)) =
+      [(1, 1, .wrote, some true, some ⟨0, [200], 0⟩), (0, 0, .wrote, some true, some ⟨0, [100], 0⟩)] ∧
+    (switchRun.stores 1).val kx = some ⟨0, [100], 0⟩ :=
+  ⟨by decide, by decide, by decide⟩
 
 end PC07
